@@ -88,4 +88,46 @@ def wdCond (r1 : Int) (st : Int × List Tr6) : Bool := decide (st.1 < r1)
 def wdStep (r0 r1 c0 c1 rpb : Int) (st : Int × List Tr6) : Int × List Tr6 :=
   (min (st.1 + rpb) r1, st.2 ++ [(st.1, min (st.1 + rpb) r1, c0, c1, st.1 - r0, 0)])
 
+/-! ### SIDD writer: the image segment headers of one product image (`SIDDWritingDetails._create_image_segment_for_sidd`) -/
+
+/-- `(image number, segment number, NROWS, NCOLS, NPPBH, NPPBV, IDLVL, IALVL, ILOC row offset)`; the first two are the numbers in
+    `IID1 = 'SIDD{image:03d}{segment:03d}'`, the ILOC column offset is always 0 -/
+abbrev Hdr9 := Int × Int × Int × Int × Int × Int × Int × Int × Int
+
+def Box.rows (b : Box) : Int := b.2.1 - b.1
+def Box.cols (b : Box) : Int := b.2.2.2 - b.2.2.1
+
+/-- NPPBH / NPPBV: one block spanning the segment, written as 0 when it has more than 8192 pixels in that direction -/
+def blockOrWhole (n : Int) : Int := if n > 8192 then 0 else n
+
+/-- header of segment `i` (0-based) of product image `siddIndex` (0-based) when `start` image segments precede it in the file;
+    `prevRows` = rows of the previous segment of this image.  Display level = position in the file + 1; every segment but the first is
+    attached to its predecessor and located `prevRows` rows below it -/
+def siddHeader (siddIndex start i prevRows : Int) (b : Box) : Hdr9 :=
+  (siddIndex + 1, i + 1, b.rows, b.cols, blockOrWhole b.cols, blockOrWhole b.rows, start + i + 1,
+    if i = 0 then 0 else start + i, if i = 0 then 0 else prevRows)
+
+def siddHeadersFrom (siddIndex start : Int) : Int → Int → List Box → List Hdr9
+  | _, _, [] => []
+  | i, prevRows, b :: rest => siddHeader siddIndex start i prevRows b :: siddHeadersFrom siddIndex start (i + 1) b.rows rest
+
+def siddHeaders (siddIndex start : Int) (boxes : List Box) : List Hdr9 := siddHeadersFrom siddIndex start 0 0 boxes
+
+/-- the file positions of the segments of this image: `start, start + 1, ...` -/
+def siddIndicesFrom : Int → List Box → List Int
+  | _, [] => []
+  | k, _ :: rest => k :: siddIndicesFrom (k + 1) rest
+
+/-- rows of the entry before position `i` of the whole list (what `image_segment_limits[i-1]` reads) -/
+def prevRowsAt (l : List Box) (i : Int) : Int :=
+  match l[(i - 1).toNat]? with
+  | some b => b.rows
+  | none => 0
+
+/-- step of the loop on its state `(image_segment_indices, total_image_count, trace)` -/
+def hdrStep (siddIndex : Int) (l : List Box) (i : Int) (b : Box) (st : List Int × Int × List Hdr9) : List Int × Int × List Hdr9 :=
+  (st.1 ++ [st.2.1], st.2.1 + 1,
+    st.2.2 ++ [(siddIndex + 1, i + 1, b.rows, b.cols, blockOrWhole b.cols, blockOrWhole b.rows, st.2.1 + 1,
+      if i = 0 then 0 else st.2.1, if i = 0 then 0 else prevRowsAt l i)])
+
 end Sarpy.Spec.L
